@@ -331,6 +331,7 @@ def r9(ctx):
 
 def r_plumb(ctx):
     namesake_plumbing(ctx, ctx.prog, r"^(<)?dnp3::outstation::", 60, "plumbing")
+    arg_namesakes(ctx, ctx.prog)
 
 
 def r11(ctx):
